@@ -258,11 +258,13 @@ fn drive(run: u64, seed: u64, index_base: u64, port: u16, quiet: Duration) -> Ru
                 *n_probe += 1;
             }
         }
-        if !udp_ls.is_empty() && !w.is_finished() {
+        // (a listener that never got a frontend cannot route: no datagram before the first AddUFront of the run)
+        let fronted = reqs.iter().any(|r| r.0 == "AddUFront");
+        if fronted && !udp_ls.is_empty() && !w.is_finished() {
             let expect: Vec<bool> = udp_ls.iter().map(|l| udp_expected(&w.state, &ad, l)).collect();
             let shots: Vec<wctl::UdpShot> = udp_ls.iter().map(|l| wctl::udp_shoot(&ad, l)).collect();
             let _ = do_batch(w, vec![("Status".to_string(), String::new())], ev, reqs, held + conns + *udp_flows + shots.len(), seen_cmds, n_resp);
-            let outs = wctl::udp_collect(udp_mocks, &shots, &expect, Duration::from_millis(3000).max(quiet), Duration::from_millis(200));
+            let outs = wctl::udp_collect(udp_mocks, &shots, &expect, Duration::from_millis(3000).max(quiet), quiet / 40);
             for (l, o) in udp_ls.iter().zip(outs) {
                 if o != "drop" {
                     *udp_flows += 1;
@@ -542,7 +544,9 @@ fn udp_expected(state: &ConfigState, ad: &Addrs, l: &str) -> bool {
     let active = state.udp_listeners.get(&addr).map(|x| x.active).unwrap_or(false);
     active
         && state.udp_fronts.iter().any(|(c, v)| {
-            v.iter().any(|f| f.address == addr) && state.backends.get(c).map(|b| !b.is_empty()).unwrap_or(false)
+            v.iter().any(|f| f.address == addr)
+                && state.clusters.contains_key(c)
+                && state.backends.get(c).map(|b| !b.is_empty()).unwrap_or(false)
         })
 }
 
